@@ -26,6 +26,7 @@ META = {
 }
 META["technique"] += '; constructor-parameter forwarding of the caching loaders; who-may-read the template cache'
 META["technique"] += "; freshness-covers-search rule (the uptodate of a first-match source re-runs the match)"
+META["technique"] += '; a failing freshness test never answers fresh'
 
 MIXIN = "liquid2.builtin.loaders.mixins.CachingLoaderMixin"
 
@@ -312,6 +313,10 @@ def run(prog: Program, res: Result) -> None:
     from checks.shared import check_freshness_covers_search
 
     check_freshness_covers_search(prog, res, "C14.R9")
+    res.rule("C14.R10", "a freshness test that cannot be carried out never answers 'fresh': no exception handler in Template.is_up_to_date[_async] (or a helper they call) returns anything but False - a deleted source whose uptodate() raises is otherwise served from the cache for ever, where the uncached loader raises TemplateNotFoundError")
+    from checks.shared import check_uptodate_failure_is_stale
+
+    check_uptodate_failure_is_stale(prog, res, "C14.R10")
     res.rule("C14.R4", "LRUCache: _cache touched only inside the LRU classes; reads and writes refresh recency; eviction pops the oldest entry, only when full, only for a new key, before the insert; ThreadSafeLRUCache wraps every accessor under the lock")
     lru = prog.cls("liquid2.utils.lru_cache.LRUCache")
     tlru = prog.cls("liquid2.utils.lru_cache.ThreadSafeLRUCache")
